@@ -508,12 +508,12 @@ theorem detectInst_step (d : Det) (minP : K) (s : Inst K) (n : ℕ) (h : Inst.Va
           · exact hc n' r' hr'
 
 /-- invariant of a long-lived `BSLayeredPPNR` -/
-def BsValid (L : ℕ) (r : K) (c : DCache K) : Prop :=
-  ∀ n d, c.get n = some d → d = aggregate (treeOcc r L n)
+def BsValid (minP : K) (L : ℕ) (r : K) (c : DCache K) : Prop :=
+  ∀ n d, c.get n = some d → d = aggregate (treeOccP minP r L n)
 
-theorem bsInst_step (L : ℕ) (r : K) (c : DCache K) (n : ℕ) (h : BsValid L r c) :
-    BsValid L r (bsInst L r c n).1 ∧ (bsInst L r c n).2 = (n, bsDetect L r n) := by
-  unfold bsInst bsDetect
+theorem bsInst_step (minP : K) (L : ℕ) (r : K) (c : DCache K) (n : ℕ) (h : BsValid minP L r c) :
+    BsValid minP L r (bsInst minP L r c n).1 ∧ (bsInst minP L r c n).2 = (n, bsDetectP minP L r n) := by
+  unfold bsInst bsDetectP
   split
   · exact ⟨h, rfl⟩
   · split
@@ -609,6 +609,21 @@ theorem aggregate_nonneg {d : Dist (List ℕ) K} (h : Nonneg d) : Nonneg (aggreg
       simp only [List.foldl_cons]
       exact ih (fun x hx => h x (by simp [hx])) _ (ho.bump _ (h e (by simp)))
   exact this [] (by intro e he; simp at he)
+
+/-- with `min_p ≤ 0`, `add` drops nothing but zero entries -/
+theorem mass_filter_gt {σ : Type} (d : Dist σ K) (h : Nonneg d) {minP : K} (hmin : minP ≤ 0) :
+    mass (d.filter fun e => minP < e.2) = mass d := by
+  induction d with
+  | nil => rfl
+  | cons e d ih =>
+    have he : 0 ≤ e.2 := h e (by simp)
+    have hd : Nonneg d := fun x hx => h x (by simp [hx])
+    simp only [List.filter_cons]
+    split
+    · simp [ih hd]
+    · next hlt =>
+      have : e.2 = 0 := le_antisymm (le_trans (not_lt.mp (by simpa using hlt)) hmin) he
+      simp [ih hd, this]
 
 end tree
 
@@ -1136,11 +1151,12 @@ theorem kernel_mass_one {minP : K} (hmin : minP ≤ 0) (d : AnyDet K) (hd : d.WF
             by_contra hc; exact h1 (Or.inl (by omega))
           exact ⟨detectWired_mass_one w mx hd hmin hn, detectWired_nonneg w mx hd minP hn⟩
   | bs L r =>
-    simp only [AnyDet.kernel, AnyDet.detect, bsDetect]
+    simp only [AnyDet.kernel, AnyDet.detect, bsDetectP]
     split
     · exact hstate n
-    · exact ⟨by simp only [DetOut.toDist]; rw [aggregate_mass, treeOcc_mass],
-        aggregate_nonneg (treeOcc_nonneg hd.1 hd.2 L n)⟩
+    · have hnn := treeOcc_nonneg hd.1 hd.2 L n
+      exact ⟨by simp only [DetOut.toDist]; rw [aggregate_mass, treeOccP, mass_filter_gt _ hnn hmin, treeOcc_mass],
+        aggregate_nonneg (fun e he => hnn e (List.mem_of_mem_filter he))⟩
 
 theorem innerTensor_spec (ds : List (Dist ℕ K)) (hnn : ∀ d ∈ ds, Nonneg d) :
     ∀ (cur : List ℕ) (p : K), 0 ≤ p → ∀ res : Dist (List ℕ) K,
@@ -1365,7 +1381,7 @@ theorem kernel_nodup (minP : K) (d : AnyDet K) (n : ℕ) : (keys (d.kernel minP 
         | pnr => exact hstate n
         | wired w mx => exact detectWired_nodup w mx minP n
   | bs L r =>
-    simp only [AnyDet.kernel, AnyDet.detect, bsDetect]
+    simp only [AnyDet.kernel, AnyDet.detect, bsDetectP]
     split
     · exact hstate n
     · exact aggregate_nodup _
